@@ -22,6 +22,7 @@ package main
 
 import (
 	"bufio"
+	"bytes"
 	"encoding/json"
 	"fmt"
 	"net/http/httptest"
@@ -42,6 +43,8 @@ type sizeSess struct {
 }
 
 var (
+	sizeOpCount  int
+	staleFile    = bytes.Repeat([]byte{0xEE}, 300000)
 	sizeSessions = map[string]*sizeSess{}
 	sizeCounter  uint64
 	sizeSent     = map[string]int{} // subscriber -> containers carried by its accepted requests
@@ -145,7 +148,15 @@ func runCdrSize(line string, t []string) string {
 		}
 	}
 	path := "/tmp/" + s.supi + ".cdr"
+	// what the operation finds at the file's place: nothing, or (every other operation) an older, LONGER file - octets
+	// that are not a CDR file, so that it is still told from a file the operation wrote; a write that does not
+	// replace the whole file leaves some of them behind
 	os.Remove(path)
+	sizeOpCount++
+	stale := sizeOpCount%2 == 0
+	if stale {
+		_ = os.WriteFile(path, staleFile, 0o644)
+	}
 	chfSupis[s.supi] = true
 	req := sizeReq(s, nusage, ncont, upflen)
 	pre, chg := sessionRecordLen(s), usageLen(req)
@@ -171,7 +182,7 @@ func runCdrSize(line string, t []string) string {
 		return "bad-op"
 	}
 	file := "~"
-	if fb, err := os.ReadFile(path); err == nil {
+	if fb, err := os.ReadFile(path); err == nil && !(stale && bytes.Equal(fb, staleFile)) {
 		file = hexOf(fb)
 		if file == "" {
 			file = "-"
